@@ -456,4 +456,70 @@ echo "end $GROG_TARGET" >> "$VTRACE"`})
 			box.Remove()
 		}
 	}
+	// `grog test`: the running TEST interrupts grog; it would fail if it ran to its end. No "passed", no cache entry,
+	// and the next `grog test` runs it again instead of reporting a cached pass
+	for _, sig := range []string{"INT", "TERM"} {
+		s := &hist.Source{Files: map[string]hist.File{"p/in.txt": {Content: "in"}}, Toml: "num_workers = 1\n"}
+		s.Targets = append(s.Targets, hist.Target{Pkg: "p", Name: "victim_test", Inputs: []string{"in.txt"}, Command: traceStart + `
+if [ -e "$VMARK/armed" ]; then
+  echo "signal sent-by-command" >> "$VTRACE"
+  kill -` + sig + ` $PPID
+  sleep 2 >/dev/null 2>&1
+  exit 1
+fi
+echo "end $GROG_TARGET" >> "$VTRACE"`})
+		box, err := hist.NewBox(base)
+		if err != nil {
+			c.R.BrokenCheck("%v", err)
+			return
+		}
+		s.Materialize(box.WS(), nil)
+		marks := filepath.Join(box.Dir, "marks")
+		os.MkdirAll(marks, 0o755)
+		os.WriteFile(filepath.Join(marks, "armed"), nil, 0o644)
+		env := map[string]string{"VMARK": marks}
+		rr := box.Run(grog, hist.RunOpts{Args: []string{"test", "//..."}, Env: env, Ceiling: 60 * time.Second})
+		name := fmt.Sprintf("grog test: SIG%s sent by the running test", sig)
+		replay := map[string]any{"scenario": name, "exit": rr.Exit, "trace": rr.Trace, "grog_output_tail": tail(rr.Output, 800)}
+		vio := func(sg, format string, a ...any) {
+			c.R.Violate(vc.Violation{Sig: sg, Detail: name + ": " + fmt.Sprintf(format, a...), Replay: replay})
+		}
+		signalled := false
+		for _, l := range rr.Trace {
+			signalled = signalled || strings.HasPrefix(l, "signal ")
+		}
+		switch {
+		case rr.TimedOut:
+			vio("C18:no-exit-after-signal:at:running-test", "grog did not exit within 60 s")
+		case !signalled:
+			c.R.Cap("scenario %q: the test never reached its kill statement: skipped (%s)", name, tail(rr.Output, 200))
+		default:
+			if rr.Exit == 0 {
+				vio("C18:exit-status-zero-after-signal:at:running-test", "grog test exited 0 although it was interrupted while the test was running")
+			}
+			if strings.Contains(rr.Output, "PASSED") {
+				vio("C18:interrupted-test-reported-as-passed", "the interrupted test (it exits 1 when it runs to its end) is reported as passed: %s", tail(rr.Output, 300))
+			}
+			// grog may take its usual moment to exit; whatever it wrote is there now
+			for _, n := range box.CacheNames() {
+				if strings.HasPrefix(n, "target/") {
+					vio("C18:cache-entry-for-interrupted-target:at:running-test", "cache contains %s although the test was interrupted", n)
+				}
+			}
+			os.Remove(filepath.Join(marks, "armed"))
+			r2 := box.Run(grog, hist.RunOpts{Args: []string{"test", "//..."}, Env: env, Ceiling: 60 * time.Second})
+			replay["follow_up_trace"] = r2.Trace
+			replay["follow_up_output_tail"] = tail(r2.Output, 500)
+			if r2.TimedOut || r2.Exit != 0 {
+				vio("C18:follow-up-build-fails:after-signal-at:running-test", "the next grog test exited %d (timed out: %v): %s", r2.Exit, r2.TimedOut, tail(r2.Output, 300))
+			} else if len(r2.Started()) == 0 {
+				vio("C18:interrupted-test-not-run-again", "the next grog test did not run the interrupted test (a result was recorded for it): %s", tail(r2.Output, 300))
+			}
+			c.R.Nontrivial("test-signal|" + name)
+		}
+		c.R.AddCounts(1, 1, 2, 1)
+		c.R.Outcome(fmt.Sprintf("test-self %s exit=%d", sig, rr.Exit))
+		box.Remove()
+	}
+
 }
